@@ -137,19 +137,22 @@ class GlobalScipyMinimizer(AbstractMinimizer):
             _pack_updates(par_values, par_names)
         )
 
+        # scipy wants one (lower, upper) pair per entry of x0, in the order of p0
+        box = [bounds.get(name, (1e-6, 1e6)) for name in p0]
+
         if self.method == "basinhopping":
             res = basinhopping(
                 res_fn,
                 x0=list(p0.values()),
             )
         elif self.method == "differential_evolution":
-            res = differential_evolution(res_fn, bounds)
+            res = differential_evolution(res_fn, box)
         elif self.method == "shgo":
-            res = shgo(res_fn, bounds)
+            res = shgo(res_fn, box)
         elif self.method == "dual_annealing":
-            res = dual_annealing(res_fn, bounds)
+            res = dual_annealing(res_fn, box)
         elif self.method == "direct":
-            res = direct(res_fn, bounds)
+            res = direct(res_fn, box)
         else:
             msg = f"Unknown method {self.method}"
             raise NotImplementedError(msg)
